@@ -34,7 +34,7 @@ func init() {
 		QuickBudget:       35 * time.Second, ThoroughBudget: 12 * time.Minute,
 		MinRuns:        6,
 		Exec:           runC05Net,
-		ExpectedProbes: []string{"candidate:same-hash", "candidate:different-hashes"},
+		ExpectedProbes: []string{"candidate:same-hash", "candidate:different-hashes", "candidate:three-entries"},
 		PanicClass:     kit.PanicInRepo("engine-panic"),
 	})
 }
@@ -123,6 +123,8 @@ func (m *evidenceMonitor) BlockCommitted(s *Sim, node int, block *types.Block, i
 			type cand struct {
 				a, b sigRec
 				what string
+				// extra entries appended after the pair (evidence lists are not limited to two)
+				extra []*staking.SignInfo
 			}
 			var cands []cand
 			kindPair := func(a, b sigRec) string {
@@ -133,12 +135,12 @@ func (m *evidenceMonitor) BlockCommitted(s *Sim, node int, block *types.Block, i
 				return x + "+" + y
 			}
 			for i := range rs {
-				cands = append(cands, cand{rs[i], rs[i], "same-hash kinds=" + kindPair(rs[i], rs[i]) + " (one signature listed twice)"})
+				cands = append(cands, cand{rs[i], rs[i], "same-hash kinds=" + kindPair(rs[i], rs[i]) + " (one signature listed twice)", nil})
 				for j := i + 1; j < len(rs); j++ {
 					if rs[i].hash == rs[j].hash {
-						cands = append(cands, cand{rs[i], rs[j], "same-hash kinds=" + kindPair(rs[i], rs[j])})
+						cands = append(cands, cand{rs[i], rs[j], "same-hash kinds=" + kindPair(rs[i], rs[j]), nil})
 					} else {
-						cands = append(cands, cand{rs[i], rs[j], "different-hashes kinds=" + kindPair(rs[i], rs[j])})
+						cands = append(cands, cand{rs[i], rs[j], "different-hashes kinds=" + kindPair(rs[i], rs[j]), nil})
 					}
 				}
 			}
@@ -146,18 +148,33 @@ func (m *evidenceMonitor) BlockCommitted(s *Sim, node int, block *types.Block, i
 			for i := range rs {
 				other := rs[i]
 				other.hash = common.BytesToHash(append([]byte("not-signed-"), rs[i].hash[:8]...))
-				cands = append(cands, cand{rs[i], other, "reused-signature kinds=" + kindPair(rs[i], rs[i]) + " (second entry lists another hash with the same signature)"})
+				cands = append(cands, cand{rs[i], other, "reused-signature kinds=" + kindPair(rs[i], rs[i]) + " (second entry lists another hash with the same signature)", nil})
+			}
+			// three entries: one genuine signature listed twice, then another hash with a signature
+			// that does not sign it (a verifier that looks at two entries only sees two valid
+			// signatures, a comparison over all entries sees two different hashes)
+			for i := range rs {
+				unsigned := common.BytesToHash(append([]byte("third-entry-"), rs[i].hash[:8]...))
+				garbage := append([]byte(nil), rs[i].sig...)
+				garbage[len(garbage)-1] ^= 0x5a
+				for _, sig := range [][]byte{garbage, rs[i].sig} {
+					cands = append(cands, cand{a: rs[i], b: rs[i], what: "three-entries kinds=" + kindPair(rs[i], rs[i]) + " (one signature twice, then an unsigned other hash)",
+						extra: []*staking.SignInfo{{Hash: unsigned, Sign: sig}}})
+				}
 			}
 			for _, cd := range cands {
 				// any claimed vote type: the signed payload carries none
 				for _, claimed := range []uint8{staking.Prevote, staking.Precommit, staking.NextIndex} {
-					key := fmt.Sprintf("%d/%x/%d/%d/%x/%x/%d", node, a[:4], round, ri, cd.a.sig[:6], cd.b.sig[:6], claimed)
+					key := fmt.Sprintf("%d/%x/%d/%d/%x/%x/%d/%d", node, a[:4], round, ri, cd.a.sig[:6], cd.b.sig[:6], claimed, len(cd.extra))
+					if len(cd.extra) > 0 {
+						key += fmt.Sprintf("/%x", cd.extra[0].Sign[len(cd.extra[0].Sign)-2:])
+					}
 					if m.tried[key] {
 						continue
 					}
 					m.tried[key] = true
 					ev := staking.NewEvidence(staking.EvidenceDoubleSignV5{Round: round, RoundIndex: ri, SignerIdx: cd.a.idx, VoteType: claimed,
-						Signs: []*staking.SignInfo{{Hash: cd.a.hash, Sign: cd.a.sig}, {Hash: cd.b.hash, Sign: cd.b.sig}}})
+						Signs: append([]*staking.SignInfo{{Hash: cd.a.hash, Sign: cd.a.sig}, {Hash: cd.b.hash, Sign: cd.b.sig}}, cd.extra...)})
 					m.evaluate(s, ns, block, a, ev, cd.what)
 				}
 			}
